@@ -28,11 +28,11 @@ type Config struct {
 	// Config is the Java edition configuration (with embedded Bedrock config).
 	Config jconfig.Config `json:"config,omitempty" yaml:"config,omitempty"`
 	// See HealthService struct.
-	HealthService HealthService `json:"healthService,omitempty" yaml:"healthService,omitempty"`
+	HealthService HealthService `json:"healthService" yaml:"healthService"`
 	// See Connect struct.
-	Connect connect.Config `json:"connect,omitempty" yaml:"connect,omitempty"`
+	Connect connect.Config `json:"connect" yaml:"connect"`
 	// See API struct.
-	API API `json:"api,omitempty" yaml:"api,omitempty"`
+	API API `json:"api" yaml:"api"`
 	// NoAutoReload disables automatic config file reloading.
 	// This is useful in environments where file watching causes issues.
 	NoAutoReload bool `json:"noAutoReload,omitempty" yaml:"noAutoReload,omitempty"`
@@ -42,7 +42,7 @@ type Config struct {
 // (https://github.com/grpc-ecosystem/grpc-health-probe)
 type HealthService struct {
 	Enabled bool   `json:"enabled,omitempty" yaml:"enabled,omitempty"`
-	Bind    string `json:"bind,omitempty" yaml:"bind,omitempty"`
+	Bind    string `json:"bind" yaml:"bind"`
 }
 
 // API is the configuration for the Gate API.
